@@ -92,6 +92,9 @@ def rule_K1(ctx):
     # (d) the key objects hash / compare by the content the bodies read
     for cls, fields in (("FSCRPDistribution", ["alpha"]), ("TreeJointDistribution", ["prior"])):
         ci = prog.cls(cls)
+        if "__eq__" not in ci.methods or "__hash__" not in ci.methods:
+            ctx.fail("K1", cls + " defines value-based __eq__ and __hash__", ci.where(), "%s no longer defines both __eq__ and __hash__: as a cache-key component it is compared by identity, so a cached proposal / new-clone tree is reused after its %s changed in place (stale densities after a concentration update)" % (cls, fields[0]), construct=ci.qualname, stmt="__eq__/__hash__")
+            continue
         e = extract(prog, ci.methods["__eq__"])
         h = extract(prog, ci.methods["__hash__"])
         se = spec(prog, "def s(self, other):\n    return self.%s == other.%s\n" % (fields[0], fields[0]), ci.methods["__eq__"])
